@@ -4,6 +4,7 @@
 * Tracker — follows the *result* of a guard call (through `.await`, `?`, `!`, `is_ok()` …)
   to the `switchInt` that decides on it and tells which out-edge is the accepting one (K4).
 """
+import re
 from cfg import cfg_of
 
 # callees through which a value is considered to flow unchanged (identity-like), by
@@ -53,11 +54,21 @@ TRANSPARENT = {
 }
 
 
+_GENERIC_ARG = re.compile(r"(?<=[A-Za-z0-9_])<[^<>]*>")
+
+
 def _suffix_match(ncallee, table):
     if not ncallee:
         return False
+    # `<T as core::convert::Into<U>>::into` also matches the table key `core::convert::Into>::into`
+    bare = ncallee
+    for _ in range(3):
+        nb = _GENERIC_ARG.sub("", bare)
+        if nb == bare:
+            break
+        bare = nb
     for k in table:
-        if ncallee == k or ncallee.endswith(k):
+        if ncallee == k or ncallee.endswith(k) or bare.endswith(k):
             return True
     return False
 
